@@ -10,7 +10,9 @@ Executable model of what `doit run [--single] ARGS` selects and which tasks the 
                       (`Task.init_options` → `TaskParse.parse` → `getopt.getopt`, short clusters and exact long names);
 * `pf`              — `TaskControl._process_filter` (patterns, `add_filtered_task`, `init_options`, `pos_arg`), with
                       the *once only* initialisation of `Task.options` made explicit (`ini`): naming a task whose
-                      options are already initialised makes `init_options` return `None` and ends the loop;
+                      options are already initialised makes `init_options` return `None`; the loop then goes on with
+                      the unchanged rest (fix dcfe778; `pinned := true` keeps the old behaviour, where the `None`
+                      ended the loop, for the counterexample theorems);
 * `resolve`         — `TaskControl._filter_tasks`: by name, by target, sub-task of a delayed task (regex targets are
                       outside the model: the generator never sets `target_regex` / `--auto-delayed-regex`);
 * `process`, `selArgs` — `TaskControl.process`, `DoitCmdBase.execute` (`args or default_tasks`);
@@ -148,20 +150,21 @@ def mapOk (f : List Tok → List Tok) : Except Err (List Tok) → Except Err (Li
   | .ok l => .ok (f l)
   | .error e => .error e
 
-/-- `head = true`: the code as it is (a task named after its options were initialised ends the loop);
-    `head = false`: every occurrence of a task name is treated alike (the specification). -/
-def pf (ts : List Task) (head : Bool) : Nat → List Tok → List Tok → Except Err (List Tok)
+/-- `pinned = false`: the code as it is (dcfe778): a task named again after its options were initialised is selected
+    again and parses nothing, the loop goes on with the next token;
+    `pinned = true`: the code before dcfe778: such a task ended the loop and the rest of the command line was dropped. -/
+def pf (ts : List Task) (pinned : Bool) : Nat → List Tok → List Tok → Except Err (List Tok)
   | 0, _, _ => .error .fuel
   | _ + 1, _, [] => .ok []
   | n + 1, ini, a :: rest =>
-    if hasStar a then mapOk (wild ts a ++ ·) (pf ts head n (ini ++ wild ts a) rest)
+    if hasStar a then mapOk (wild ts a ++ ·) (pf ts pinned n (ini ++ wild ts a) rest)
     else match find ts a with
-      | none => mapOk (a :: ·) (pf ts head n ini rest)
+      | none => mapOk (a :: ·) (pf ts pinned n ini rest)
       | some t =>
-        if head && ini.contains a then .ok [a]
+        if ini.contains a then (if pinned then .ok [a] else mapOk (a :: ·) (pf ts pinned n ini rest))
         else match dropOpts t.params rest with
           | none => .error .optErr
-          | some rest' => if t.posArg then .ok [a] else mapOk (a :: ·) (pf ts head n (a :: ini) rest')
+          | some rest' => if t.posArg then .ok [a] else mapOk (a :: ·) (pf ts pinned n (a :: ini) rest')
 
 /-- does the loop meet a task whose options are already initialised? (same recursion as `pf`) -/
 def reinitB (ts : List Task) : Nat → List Tok → List Tok → Bool
@@ -188,7 +191,7 @@ def pfPos (ts : List Task) : Nat → List Tok → List Tok → List (Tok × List
     else match find ts a with
       | none => pfPos ts n ini rest
       | some t =>
-        if ini.contains a then []
+        if ini.contains a then pfPos ts n ini rest
         else match dropOpts t.params rest with
           | none => []
           | some rest' => if t.posArg then [(a, rest')] else pfPos ts n (a :: ini) rest'
@@ -220,13 +223,13 @@ def bindOk (r : Except Err (List Tok)) (f : List Tok → Except Err (List Tok)) 
   | .ok l => f l
   | .error e => .error e
 
-def filterGen (ts : List Task) (head : Bool) (ini args : List Tok) : Except Err (List Tok) :=
-  bindOk (pf ts head (args.length + 1) ini args) (resolveAll ts)
+def filterGen (ts : List Task) (pinned : Bool) (ini args : List Tok) : Except Err (List Tok) :=
+  bindOk (pf ts pinned (args.length + 1) ini args) (resolveAll ts)
 
 /-- `TaskControl._filter_tasks` on a fresh `TaskControl` -/
-def filterTasks (ts : List Task) (args : List Tok) : Except Err (List Tok) := filterGen ts true [] args
-/-- the selection the property asks for -/
-def specFilter (ts : List Task) (args : List Tok) : Except Err (List Tok) := filterGen ts false [] args
+def filterTasks (ts : List Task) (args : List Tok) : Except Err (List Tok) := filterGen ts false [] args
+/-- the same before dcfe778 (F-C12b) -/
+def pinnedFilterTasks (ts : List Task) (args : List Tok) : Except Err (List Tok) := filterGen ts true [] args
 def NoReinit (ts : List Task) (args : List Tok) : Prop := reinitB ts (args.length + 1) [] args = false
 instance (ts : List Task) (args : List Tok) : Decidable (NoReinit ts args) := by unfold NoReinit; infer_instance
 
@@ -235,11 +238,11 @@ def selArgs (args : List Tok) (dflt : Option (List Tok)) : Option (List Tok) :=
   if args.isEmpty then dflt else some args
 
 /-- `TaskControl.process` -/
-def processGen (ts : List Task) (head : Bool) : Option (List Tok) → Except Err (List Tok)
+def processGen (ts : List Task) (pinned : Bool) : Option (List Tok) → Except Err (List Tok)
   | none => .ok (names ts)
-  | some a => filterGen ts head [] a
+  | some a => filterGen ts pinned [] a
 
-def process (ts : List Task) (sel : Option (List Tok)) : Except Err (List Tok) := processGen ts true sel
+def process (ts : List Task) (sel : Option (List Tok)) : Except Err (List Tok) := processGen ts false sel
 
 /-- pinned `Run._execute` under `--single`: `control.process` was called a second time on the same `TaskControl`;
     by then every task the first pass put into the filter list has its options initialised -/
@@ -296,9 +299,9 @@ structure Plan where
   tasks : List Task          -- after `prepare` and, with `--single`, `applySingle`
   closure : List Tok
 
-def planGen (ts : List Task) (head : Bool) (args : List Tok) (dflt : Option (List Tok)) (single : Bool) :
+def planGen (ts : List Task) (pinned : Bool) (args : List Tok) (dflt : Option (List Tok)) (single : Bool) :
     Except Err Plan :=
-  match processGen (prepare ts) head (selArgs args dflt) with
+  match processGen (prepare ts) pinned (selArgs args dflt) with
   | .error e => .error e
   | .ok sel =>
     let ts' := if single then applySingle (prepare ts) sel else prepare ts
